@@ -40,4 +40,9 @@ def run_drc(ctx, idx, model, device, netspoc, ipv6=None, raw=None, raw6=None, qu
 def run_many(ctx, jobs, workers=16):
     """jobs: list of dicts with the keyword arguments of run_drc (without ctx, idx)."""
     with ThreadPoolExecutor(workers) as ex:
-        return list(ex.map(lambda ij: run_drc(ctx, ij[0], **ij[1]), enumerate(jobs)))
+        res = list(ex.map(lambda ij: run_drc(ctx, ij[0], **ij[1]), enumerate(jobs)))
+    # a run that did not finish under parallel load is repeated alone with a long limit before it counts as a hang
+    for i, r in enumerate(res):
+        if r['rc'] == 'hang':
+            res[i] = run_drc(ctx, i, **dict(jobs[i], timeout=600))
+    return res
